@@ -18,8 +18,9 @@ TIERS = {"quick": {"runs": 20000, "budget_s": 75, "chunk": 50, "min_runs": 300},
          "thorough": {"runs": 1000000, "budget_s": 1200, "chunk": 200, "min_runs": 5000}}
 RULE = ("case = seeded (3-10 definition fragments - #define, typedef, typedef chains, enum/flag with expressions over earlier "
         "members, structs/unions using earlier fragments, 'typedef struct {..} A, B;' - with their dependency DAG; a perturbed "
-        "history: dependency-respecting random order, random grouping into 1..n load() calls, comments/blank/newline noise at "
-        "token boundaries, and alias ops between loads: re-declare same target, re-declare other target, cyclic and dangling "
+        "history: dependency-respecting random order, random grouping into 1..n load() calls (15% through loadfile() from a scratch "
+        "file), comments/blank/tab/LF/CR/CRLF/form-feed noise at EVERY token boundary - also between the stars of a pointer, "
+        "between a name and '[', inside and between brackets and between the words of a multi-word type - and alias ops between loads: re-declare same target, re-declare other target, cyclic and dangling "
         "add_type followed by resolve / attribute access / use in a definition). The resulting world (every user name -> layout "
         "signature, enum members, constants, alias identity, parse observations on sample inputs) must equal that of the "
         "canonical history (generation order, one load, canonical spacing) in a fresh object. evaluations = histories compared "
@@ -36,7 +37,8 @@ ASSUMPTIONS = [
     "Anonymous type names are normalised; the canonical history is the reference (differential oracle).",
     "A resolve that does not return within 5 s of wall time counts as looping.",
 ]
-REAL = ["dissect.cstruct TokenParser, cstruct.add_type/resolve/typedef and constant tables"]
+REAL = ["dissect.cstruct TokenParser, cstruct.add_type/resolve/typedef and constant tables, cstruct.loadfile",
+        "the file system (scratch files for the loadfile route, written and unlinked inside the run)"]
 STUBS = ["none"]
 
 BASE = ["uint8", "int8", "uint16", "int16", "uint32", "int32", "uint64", "char", "BYTE", "DWORD", "unsigned int", "WORD", "long long", "uint24",
@@ -46,7 +48,8 @@ SYN = {"uint8": ["BYTE", "uint8_t", "UCHAR"], "uint16": ["WORD", "unsigned short
        "int32": ["int", "long", "LONG"], "int16": ["short", "SHORT"], "uint64": ["QWORD", "unsigned long long"], "int8": ["INT8", "signed char"],
        "char": ["CHAR"], "BYTE": ["uint8"], "DWORD": ["uint32"], "WORD": ["uint16"], "unsigned int": ["uint32", "DWORD"],
        "long long": ["int64", "LONGLONG"], "uint24": ["uint24"]}
-NOISE = [" ", "  ", "\t", "\n", "\n\n  ", " /* c */ ", "/**/", "/* two\n   lines */", " // eol\n", "/* it's */", "\r\n"]
+LINE_BREAKS = "\n\r\f\v"  # what str.splitlines() (the enum member splitter) treats as a line boundary, of the characters generated
+NOISE = [" ", "  ", "\t", "\n", "\n\n  ", " /* c */ ", "/**/", "/* two\n   lines */", " // eol\n", "/* it's */", "\r\n", " // eol\r\n", "\r", "\f"]
 
 
 # conflicting re-declarations of an existing type name NAME in the other syntactic forms that register a name
@@ -61,6 +64,26 @@ REDECL_FORMS = {
     "enum": "enum {name} : uint8 {{ Zz{fresh} }};",
     "flag": "flag {name} : uint8 {{ Zz{fresh} }};",
 }
+
+
+def G(text):
+    """A token that follows its predecessor WITHOUT a blank in the plain rendering (noise may still be inserted there)."""
+    return ("G", text)
+
+
+def declarator(rng, fn, dims, stars=0):
+    """Tokens of a field declarator: stars, name, one bracket group per dimension (dimension texts are split at blanks)."""
+    out = []
+    for k in range(stars):
+        out.append("*" if k == 0 else G("*"))
+    out.append(G(fn) if stars > 1 else fn)
+    for d in dims:
+        out.append(G("["))
+        parts = d.split()
+        for j, part in enumerate(parts):
+            out.append(G(part) if j == 0 else part)
+        out.append(G("]"))
+    return out
 
 
 def gen_case(rng: random.Random, tier: str):
@@ -97,8 +120,8 @@ def gen_case(rng: random.Random, tier: str):
         elif r < 0.48:
             nm = nid("E")
             kind = rng.choice(["enum", "enum", "flag"])
-            base = rng.choice(["uint8", "uint16", "uint32", "int32", "uint64"])
-            toks = [kind, nm, ":", base, "{"]
+            base = rng.choice(["uint8", "uint16", "uint32", "int32", "uint64", "unsigned int", "unsigned short", "unsigned long long"])
+            toks = [kind, nm, ":", *base.split(), "{"]
             members = []
             for j in range(rng.randint(1, 5)):
                 m = nid("M")
@@ -143,10 +166,16 @@ def gen_case(rng: random.Random, tier: str):
                     if consts and rng.random() < 0.5:
                         cn, ci, _ = rng.choice(consts)
                         deps.add(ci)
-                        dim = rng.choice([cn, f"{cn} + 1", f"{cn}*2"])
-                    body += [*tt, f"{fn}[{dim}]", ";"]
+                        dim = rng.choice([cn, f"{cn} + 1", f"{cn} * 2"])
+                    dims = [dim]
+                    r4 = rng.random()
+                    if r4 < 0.2:
+                        dims.append(str(rng.randint(1, 2)))
+                    elif r4 < 0.3 and not is_enumlike and tn in ("uint8", "uint16", "char", "BYTE", "WORD") and j == 0 and kind != "union":
+                        dims = [""]  # null-terminated
+                    body += [*tt, *declarator(rng, fn, dims), ";"]
                 elif r3 < 0.3:
-                    body += [*tt, "*", fn, ";"]
+                    body += [*tt, *declarator(rng, fn, [], stars=rng.choice([1, 1, 2])), ";"]
                 elif r3 < 0.4 and not is_enumlike and tn in ("uint8", "uint16", "uint32", "int32", "WORD", "DWORD", "BYTE"):
                     body += [*tt, fn, ":", str(rng.randint(1, 3)), ";", "uint64", nid("f"), ";"]
                 elif r3 < 0.5 and kind != "union":
@@ -156,7 +185,7 @@ def gen_case(rng: random.Random, tier: str):
                     inner = []
                     for _k in range(rng.randint(1, 3)):
                         inner += [rng.choice(["uint8", "uint16", "uint32", "int48", "char"]), nid("f"), ";"]
-                    body += ["struct", rng.choice(TAGS), "{", *inner, "}", rng.choice([fn, f"{fn}[2]", f"{fn}[2]", f"{fn}[3]"]), ";"]
+                    body += ["struct", rng.choice(TAGS), "{", *inner, "}", *declarator(rng, fn, rng.choice([[], ["2"], ["2"], ["3"]])), ";"]
                 else:
                     body += [*tt, fn, ";"]
             body.append("}")
@@ -187,8 +216,8 @@ def gen_case(rng: random.Random, tier: str):
             if rng.random() < 0.3:
                 a, b = f["toks"][ti], f["toks"][ti + 1]
                 nz = rng.choice(NOISE)
-                inside_member = isinstance(a, tuple) and isinstance(b, tuple) and b[0] != "M"
-                if inside_member and ("\n" in nz or "\r" in nz):
+                inside_member = isinstance(a, tuple) and isinstance(b, tuple) and a[0] in ("M", "=", "V") and b[0] in ("=", "V")
+                if inside_member and any(c_ in nz for c_ in LINE_BREAKS):
                     if rng.random() < 0.08:
                         enum_nl = True
                     else:
@@ -238,6 +267,7 @@ def gen_case(rng: random.Random, tier: str):
                           "n": rng.randint(1, 3)})
     return {"frags": frags, "order": order, "cuts": cuts, "noise": noise, "alias_ops": alias_ops, "enum_member_newline": enum_nl,
             "omit_default_kwargs": [rng.random() < 0.5 for _ in range(len(cuts) + 1)],
+            "via_file": [rng.random() < 0.15 for _ in range(len(cuts) + 1)],
             "data_seed": rng.getrandbits(32), "cfg": {"endian": rng.choice("<>"), "compiled": rng.random() < 0.5, "align": rng.random() < 0.3}}
 
 
@@ -265,7 +295,9 @@ def render_frag(f, fi, noise):
     for ti, t in enumerate(toks):
         out.append(_tok(t))
         if ti + 1 < len(toks):
-            out.append(noise.get(f"{fi}:{ti}", " ") if noise is not None else " ")
+            nxt = toks[ti + 1]
+            plain = "" if isinstance(nxt, (tuple, list)) and nxt[0] == "G" else " "
+            out.append(noise.get(f"{fi}:{ti}", plain) if noise is not None else plain)
     return "".join(out) + "\n"
 
 
@@ -465,7 +497,23 @@ def run_history(case, perturbed, stats):
             if kwg["align"] is False:
                 del kwg["align"]
             stats.count("probe.load_with_default_kwargs_omitted")
-        cs.load(text, **kwg)
+        via_file = case.get("via_file") or []
+        if gi < len(via_file) and via_file[gi]:
+            # the file entry point: the group is written to a scratch file exactly as rendered (no newline translation on
+            # writing) and loaded with loadfile(); line endings inside the noise reach the library through its own file read
+            import os
+            import tempfile
+
+            fd, path = tempfile.mkstemp(prefix="verif_c13_", suffix=".h")
+            try:
+                with os.fdopen(fd, "w", newline="", encoding="utf-8") as fh:
+                    fh.write(text)
+                cs.loadfile(path, **kwg)
+            finally:
+                os.unlink(path)
+            stats.count("probe.group_loaded_through_loadfile")
+        else:
+            cs.load(text, **kwg)
         loaded.update(g)
         stats.count("steps")
     alias_ops_at(len(groups))
@@ -521,7 +569,7 @@ def run_case(case, stats):
         for key, nz in case["noise"].items():
             fi, ti = map(int, key.split(":"))
             toks = case["frags"][fi]["toks"]
-            if isinstance(toks[ti], (tuple, list)) and isinstance(toks[ti + 1], (tuple, list)) and toks[ti + 1][0] != "M" and ("\n" in nz or "\r" in nz):
+            if isinstance(toks[ti], (tuple, list)) and isinstance(toks[ti + 1], (tuple, list)) and toks[ti][0] in ("M", "=", "V") and toks[ti + 1][0] in ("=", "V") and any(c_ in nz for c_ in LINE_BREAKS):
                 c2["noise"][key] = " "
         if compare(c2) is None:
             raise Violation("noise", "newline_inside_enum_member", detail)
